@@ -366,6 +366,7 @@ def e2e_validators(ctx) -> None:
 # ----------------------------------------------------------------------------------------------- E2c
 def e2c(ctx) -> None:
     """names given to get_alg / get_enc / get_zip: the gate refuses non-str names cleanly, and the header member exists"""
+    from .common import resolve_all as _ra
     eng = ctx.eng
     P = eng.prog
     gates = []
@@ -405,14 +406,40 @@ def e2c(ctx) -> None:
         f = P.cls(r).methods.get("check_header")
         if f is not None:
             chk.append(f)
-    for fn in consume_scope(eng):
+    cscope = consume_scope(eng)
+
+    def produce_only(fn_, cn_, cfg_) -> bool:
+        """the site is reachable only on the true arm of a test of a bool parameter that every call from the consuming side leaves False"""
+        for t in cfg_.nodes:
+            if t.kind == "test" and isinstance(t.ast, ast.Name) and t.ast.id in fn_.params and cn_ is not None \
+                    and cn_ not in cfg_.reachable(cfg_.entry, edge_filter=lambda x, y, lab, _t=t: not (x is _t and lab == "true")):
+                p_ = t.ast.id
+                d_ = fn_.param_default(p_)
+                sites_ = [cs_ for cs_ in eng.cg.callers.get(fn_, []) if cs_.fn in cscope and isinstance(cs_.node, ast.Call)]
+                vals = []
+                for cs_ in sites_:
+                    a_ = eng.cg.arg_for_param(cs_, fn_, p_)
+                    vals.append(a_ if a_ is not None else d_)
+                if sites_ and all(v_ is not None and is_const(v_, False) for v_ in vals) and not any(
+                        isinstance(x, ast.Name) and x.id == p_ and isinstance(x.ctx, ast.Store) for x in fn_nodes(fn_)):
+                    return True
+        return False
+    for fn in cscope:
         cfg = None
         for s in eng.cg.calls_in(fn):
-            if not isinstance(s.node, ast.Call) or not s.callees or not all(c in gates for c in s.callees) or not s.node.args:
+            if not isinstance(s.node, ast.Call) or not s.callees or not s.node.args:
                 continue
             a = s.node.args[0]
             if not (isinstance(a, ast.Subscript) and isinstance(a.slice, ast.Constant)):
                 continue
+            is_gate = all(c in gates for c in s.callees)
+            if not is_gate:
+                # any other repo callee keyed by the algorithm members of a merged header view (`pick_random_key(headers["alg"])`)
+                if a.slice.value not in ("alg", "enc", "zip") or not any(t_.endswith(".headers()") for t_ in _ra(eng, fn, a.value)):
+                    continue
+                cfg = cfg or cfg_of(fn)
+                if produce_only(fn, cfg.node_of(s.node), cfg):
+                    continue
             n += 1
             key = a.slice.value
             base = norm(a.value)
